@@ -579,3 +579,276 @@ Proof.
   - apply cb_loop_complete in H. exact H.
   - pinv H. pinv H. apply cb_loop_complete in H. exact H.
 Qed.
+
+(* ====================================================================== *)
+(* F.  C05 / C06 — deadlines and loss end the operation with that error    *)
+(* ====================================================================== *)
+
+Theorem get_timeout_precedence : forall ops t,
+  get_timeout ops t = if (t =? -1)%Z then ops
+                      else if (t =? 0)%Z then (Z.of_N max_timeout_seconds * 1000000000)%Z else t.
+Proof. reflexivity. Qed.
+
+(* [fails_with g p]: every read-until of [p] hands a deadline / loss error [e] on as [Fail (g e)] *)
+Inductive fails_with {R} (g : err -> err) : prog R -> Prop :=
+| fw_ret r : fails_with g (Ret r)
+| fw_fail e : fails_with g (Fail e)
+| fw_write b r k : fails_with g k -> fails_with g (Write b r k)
+| fw_note tg d k : fails_with g k -> fails_with g (Note tg d k)
+| fw_requeue b k : fails_with g k -> fails_with g (Requeue b k)
+| fw_until c k h : (forall rb, fails_with g (k rb)) -> (forall e, h e = Fail (g e)) -> fails_with g (Until c k h).
+
+Lemma fails_with_ctrace cfg R g (p : prog R) : fails_with g p ->
+  forall t r c e, ctrace cfg p t r -> In (OErr c e) t -> r = inr (g e) /\ exists t0, t = t0 ++ [OErr c e].
+Proof.
+  induction 1; intros t r0 c0 e0 Hc Hin; pinv Hc.
+  - destruct Hin.
+  - destruct Hin.
+  - destruct Hin as [Hin|Hin]; [discriminate|].
+    destruct (IHfails_with _ _ _ _ Hc Hin) as [E [tz E']]. split; auto. exists (OWrite b r :: tz). rewrite E'; auto.
+  - destruct Hin as [Hin|Hin]; [discriminate|].
+    destruct (IHfails_with _ _ _ _ Hc Hin) as [E [tz E']]. split; auto. exists (ONote tg d :: tz). rewrite E'; auto.
+  - destruct Hin as [Hin|Hin]; [discriminate|].
+    destruct (IHfails_with _ _ _ _ Hc Hin) as [E [tz E']]. split; auto. exists (ORequeue b :: tz). rewrite E'; auto.
+  - destruct Hin as [Hin|Hin]; [discriminate|].
+    destruct (H0 _ _ _ _ _ Hc Hin) as [E [tz E']]. split; auto. exists (ORead c rb :: tz). rewrite E'; auto.
+  - rewrite H1 in Hc. pinv Hc. destruct Hin as [Hin|[]]. inversion Hin; subst. split; auto. exists []; auto.
+Qed.
+
+Lemma fails_with_bind {A B} g (p : prog A) (f : A -> prog B) :
+  fails_with g p -> (forall a, fails_with g (f a)) -> fails_with g (bind p f).
+Proof.
+  intros Hp Hf. induction Hp; simpl; auto; try (constructor; auto; fail).
+  constructor; auto. intros e. rewrite H1. reflexivity.
+Qed.
+
+Lemma fails_with_catch {A} g E (p : prog A) :
+  fails_with g p -> fails_with (fun _ => E) (catch p (fun _ => Fail E)).
+Proof.
+  intros Hp. induction Hp; simpl; try (constructor; auto; fail).
+  constructor; auto. intros e. rewrite H1. reflexivity.
+Qed.
+
+Lemma fw_until_echo {R} o input (k : bytes -> prog R) :
+  (forall rb, fails_with id (k rb)) -> fails_with id (until_echo o input k).
+Proof.
+  intros Hk. unfold until_echo. destruct input; destruct (o_exact o); auto; constructor; auto.
+Qed.
+
+Lemma fw_send_input cfg input o : fails_with id (send_input cfg input o).
+Proof.
+  unfold send_input. constructor. apply fw_until_echo. intros _. constructor.
+  destruct (o_eager o); constructor; auto. intros; constructor.
+Qed.
+
+Lemma fw_get_prompt cfg : fails_with id (get_prompt cfg).
+Proof. unfold get_prompt. constructor. constructor; auto. intros; constructor. Qed.
+
+Lemma fw_interactive_loop cfg o : forall evs acc, fails_with id (interactive_loop cfg o evs acc).
+Proof.
+  induction evs as [|e rest IH]; intros acc; simpl; [constructor|].
+  constructor.
+  assert (K : forall nb, fails_with id
+     (Write (c_ret cfg) false
+        (Until (CAnyPrompt (o_complete o ++ [match ev_response e with Some r => r | None => c_prompt cfg end]))
+           (fun pb => match rest with
+                      | [] => Ret (process_out cfg ((acc ++ nb) ++ pb) false)
+                      | _ :: _ => if existsb (fun p => rx_match p pb) (o_complete o)
+                                  then Ret (process_out cfg ((acc ++ nb) ++ pb) false)
+                                  else interactive_loop cfg o rest ((acc ++ nb) ++ pb)
+                      end) Fail))).
+  { intros nb. constructor. constructor; auto. intros pb. destruct rest; [constructor|].
+    destruct (existsb _ _); [constructor | apply IH]. }
+  destruct (ev_response e); destruct (ev_hidden e); try apply K. apply fw_until_echo. apply K.
+Qed.
+
+Lemma fw_send_interactive cfg evs o : fails_with id (send_interactive cfg evs o).
+Proof. apply fw_interactive_loop. Qed.
+
+Lemma fw_cb_exec f cfg cbs fired i c b fb :
+  (forall b fb fired, fails_with id (cb_loop f cfg cbs b fb fired)) ->
+  fails_with id (cb_exec f cfg cbs fired i c b fb).
+Proof.
+  intros IH. unfold cb_exec. destruct (_ && _); [constructor|]. cbv zeta. constructor.
+  assert (K : fails_with id (if cb_complete c then Ret fb
+              else cb_loop f cfg cbs (if cb_reset c then [] else b) fb (if cb_once c then i :: fired else fired))).
+  { destruct (cb_complete c); [constructor | apply IH]. }
+  destruct (cb_answer c); auto. constructor. constructor. auto.
+Qed.
+
+Lemma fw_cb_loop cfg cbs : forall fuel b fb fired, fails_with id (cb_loop fuel cfg cbs b fb fired).
+Proof.
+  induction fuel as [|f IH]; intros b fb fired; [constructor|].
+  rewrite cb_loop_S. destruct (first_firing cbs b 0) as [[i c]|].
+  - apply fw_cb_exec; auto.
+  - constructor; auto. intros rb. destruct (first_firing cbs (b ++ rb) 0) as [[i c]|]; [|constructor].
+    apply fw_cb_exec; auto.
+Qed.
+
+Lemma fw_send_with_callbacks cfg input cbs : fails_with id (send_with_callbacks cfg input cbs).
+Proof.
+  unfold send_with_callbacks. destruct input; [apply fw_cb_loop|]. constructor. constructor. apply fw_cb_loop.
+Qed.
+
+Lemma fw_auth_ssh_loop cfg ap pw pp : forall fuel b pc ppc, fails_with id (auth_ssh_loop fuel cfg ap pw pp b pc ppc).
+Proof.
+  induction fuel as [|f IH]; intros b pc ppc; simpl; [constructor|].
+  constructor; auto. intros nb.
+  destruct (ssh_error _); [constructor|]. destruct (rx_match (c_prompt cfg) _); [constructor|].
+  destruct (rx_match (ap_pass ap) _).
+  { destruct (Nat.ltb _ _); [constructor|]. constructor. constructor. apply IH. }
+  destruct (rx_match (ap_passphrase ap) _).
+  { destruct (Nat.ltb _ _); [constructor|]. constructor. constructor. apply IH. }
+  apply IH.
+Qed.
+Lemma fw_auth_ssh cfg ap pw pp : fails_with id (auth_ssh cfg ap pw pp).
+Proof. apply fw_auth_ssh_loop. Qed.
+
+Lemma fw_auth_telnet_loop cfg ap u pw : forall fuel b uc pc, fails_with id (auth_telnet_loop fuel cfg ap u pw b uc pc).
+Proof.
+  induction fuel as [|f IH]; intros b uc pc; simpl; [constructor|].
+  constructor; auto. intros nb.
+  destruct (rx_match (c_prompt cfg) _); [constructor|].
+  destruct (rx_match (ap_user ap) _).
+  { destruct (Nat.ltb _ _); [constructor|]. constructor. constructor. apply IH. }
+  destruct (rx_match (ap_pass ap) _).
+  { destruct (Nat.ltb _ _); [constructor|]. constructor. constructor. apply IH. }
+  apply IH.
+Qed.
+Lemma fw_auth_telnet cfg ap u pw : fails_with id (auth_telnet cfg ap u pw).
+Proof. apply fw_auth_telnet_loop. Qed.
+
+Lemma fw_channel_open cfg ap a : fails_with id (channel_open cfg ap a).
+Proof.
+  destruct a; simpl.
+  - constructor.
+  - apply fails_with_bind; [apply fw_auth_ssh|]. intros [|x l]; repeat constructor.
+  - apply fails_with_bind; [apply fw_auth_telnet|]. intros [|x l]; repeat constructor.
+Qed.
+
+Lemma fw_escalate net target : fails_with id (escalate net target).
+Proof.
+  unfold escalate. destruct (lookup_level _ _); [|constructor].
+  destruct (_ || _); [apply fw_send_input | apply fw_send_interactive].
+Qed.
+Lemma fw_deescalate net target : fails_with id (deescalate net target).
+Proof. unfold deescalate. destruct (lookup_level _ _); [apply fw_send_input|constructor]. Qed.
+
+Lemma fw_acquire_loop net target : forall fuel cached count, fails_with id (acquire_loop fuel net cached target count).
+Proof.
+  induction fuel as [|f IH]; intros cached count; simpl; [constructor|].
+  apply fails_with_bind; [apply fw_get_prompt|]. intros prompt.
+  destruct (process_acquire net cached target prompt) as [a cur| |]; try constructor.
+  destruct a.
+  - repeat constructor.
+  - constructor. apply fails_with_bind; [apply fw_escalate|]. intros _.
+    destruct (Nat.ltb _ _); [constructor | apply IH].
+  - constructor. apply fails_with_bind; [apply fw_deescalate|]. intros _.
+    destruct (Nat.ltb _ _); [constructor | apply IH].
+Qed.
+Lemma fw_acquire_priv net cached target : fails_with id (acquire_priv net cached target).
+Proof. unfold acquire_priv. destruct (lookup_level _ _); [apply fw_acquire_loop | constructor]. Qed.
+Lemma fw_acquire_default net cached : fails_with (fun _ => EPrivilege) (acquire_default net cached).
+Proof.
+  unfold acquire_default. destruct (beqb _ _); [constructor|].
+  eapply fails_with_catch. apply fw_acquire_priv.
+Qed.
+
+(* the programs the property speaks about *)
+Inductive chan_op : prog bytes -> chan_cfg -> Prop :=
+| co_send_input cfg input o : chan_op (send_input cfg input o) cfg
+| co_get_prompt cfg : chan_op (get_prompt cfg) cfg
+| co_send_interactive cfg evs o : chan_op (send_interactive cfg evs o) cfg
+| co_send_with_callbacks cfg input cbs : chan_op (send_with_callbacks cfg input cbs) cfg
+| co_auth_ssh cfg ap pw pp : chan_op (auth_ssh cfg ap pw pp) cfg
+| co_auth_telnet cfg ap u pw : chan_op (auth_telnet cfg ap u pw) cfg
+| co_channel_open cfg ap a : chan_op (channel_open cfg ap a) cfg
+| co_escalate net target : chan_op (escalate net target) (n_chan net)
+| co_deescalate net target : chan_op (deescalate net target) (n_chan net)
+| co_acquire_priv net cached target : chan_op (acquire_priv net cached target) (n_chan net).
+
+Lemma chan_op_fails_with p cfg : chan_op p cfg -> fails_with id p.
+Proof.
+  destruct 1; auto using fw_send_input, fw_get_prompt, fw_send_interactive, fw_send_with_callbacks,
+    fw_auth_ssh, fw_auth_telnet, fw_channel_open, fw_escalate, fw_deescalate, fw_acquire_priv.
+Qed.
+
+(* any error handed to a read-until ends the operation with exactly that error, and it is the last
+   observation: nothing is written or read after it *)
+Theorem error_is_final : forall p cfg t r c e,
+  chan_op p cfg -> ctrace cfg p t r -> In (OErr c e) t ->
+  r = inr e /\ exists t0, t = t0 ++ [OErr c e].
+Proof.
+  intros p cfg t r c e Hp Hc Hin.
+  apply (fails_with_ctrace cfg _ id p (chan_op_fails_with p cfg Hp) t r c e Hc Hin).
+Qed.
+
+Theorem timeout_is_timeout : forall p cfg t r c,
+  chan_op p cfg -> ctrace cfg p t r -> In (OErr c ETimeout) t ->
+  r = inr ETimeout /\ exists t0, t = t0 ++ [OErr c ETimeout].
+Proof. intros; eapply error_is_final; eauto. Qed.
+
+Theorem callbacks_timeout : forall cfg input cbs t r c,
+  ctrace cfg (send_with_callbacks cfg input cbs) t r -> In (OErr c ETimeout) t -> r = inr ETimeout.
+Proof. intros. eapply timeout_is_timeout; eauto. constructor. Qed.
+
+Theorem loss_is_error : forall p cfg t r c e,
+  chan_op p cfg -> ctrace cfg p t r -> In (OErr c e) t -> e = EConnection \/ e = ETransport ->
+  r = inr e /\ (forall x, r <> inl x).
+Proof.
+  intros p cfg t r c e Hp Hc Hin _. destruct (error_is_final p cfg t r c e Hp Hc Hin) as [-> _].
+  split; auto. discriminate.
+Qed.
+
+(* under the implicit acquire every failure — whatever it was — is reported as a privilege error *)
+Lemma catch_const_err cfg R (p : prog R) E : forall t e,
+  ctrace cfg (catch p (fun _ => Fail E)) t (inr e) -> e = E.
+Proof.
+  induction p; simpl; intros t e0 Hc; pinv Hc; eauto.
+  - discriminate.
+  - inversion H0; auto.
+Qed.
+
+Theorem implicit_acquire_failure_is_privilege : forall net cached t r,
+  ctrace (n_chan net) (acquire_default net cached) t r ->
+  match r with inr e => e = EPrivilege | inl _ => True end.
+Proof.
+  intros net cached t r Hc. destruct r as [x|e]; auto.
+  unfold acquire_default in Hc. destruct (beqb _ _); [pinv Hc; discriminate|].
+  eapply catch_const_err; eauto.
+Qed.
+
+Theorem loss_under_acquire_default : forall net cached t r c e,
+  ctrace (n_chan net) (acquire_default net cached) t r -> In (OErr c e) t ->
+  r = inr EPrivilege /\ exists t0, t = t0 ++ [OErr c e].
+Proof.
+  intros net cached t r c e Hc Hin.
+  apply (fails_with_ctrace _ _ _ _ (fw_acquire_default net cached) t r c e Hc Hin).
+Qed.
+
+(* SendCommand: an error inside the implicit acquire is a privilege error; one in the command's own
+   reads is that error *)
+Theorem net_send_command_errors : forall net cached cmd o t r c e,
+  ctrace (n_chan net) (net_send_command net cached cmd o) t r -> In (OErr c e) t ->
+  (r = inr EPrivilege \/ r = inr e) /\ exists t0, t = t0 ++ [OErr c e].
+Proof.
+  intros net cached cmd o t r c e Hc Hin. unfold net_send_command in Hc.
+  assert (G : forall (p : prog bytes), fails_with (fun _ => EPrivilege) p ->
+            forall t r, ctrace (n_chan net) (bind p (fun _ => send_input (n_chan net) cmd o)) t r ->
+                        In (OErr c e) t -> (r = inr EPrivilege \/ r = inr e) /\ exists t0, t = t0 ++ [OErr c e]).
+  { clear. intros p Hp. induction Hp; simpl; intros t r0 Hc Hin.
+    - destruct (fails_with_ctrace _ _ _ _ (fw_send_input (n_chan net) cmd o) _ _ _ _ Hc Hin) as [E X]. auto.
+    - pinv Hc. destruct Hin.
+    - pinv Hc. destruct Hin as [Hin|Hin]; [discriminate|].
+      destruct (IHHp _ _ Hc Hin) as [E [tz E']]. split; auto. exists (OWrite b r :: tz); rewrite E'; auto.
+    - pinv Hc. destruct Hin as [Hin|Hin]; [discriminate|].
+      destruct (IHHp _ _ Hc Hin) as [E [tz E']]. split; auto. exists (ONote tg d :: tz); rewrite E'; auto.
+    - pinv Hc. destruct Hin as [Hin|Hin]; [discriminate|].
+      destruct (IHHp _ _ Hc Hin) as [E [tz E']]. split; auto. exists (ORequeue b :: tz); rewrite E'; auto.
+    - pinv Hc.
+      + destruct Hin as [Hin|Hin]; [discriminate|].
+        destruct (H0 _ _ _ Hc Hin) as [E [tz E']]. split; auto. exists (ORead c0 rb :: tz); rewrite E'; auto.
+      + rewrite H1 in Hc. simpl in Hc. pinv Hc. destruct Hin as [Hin|[]]. inversion Hin; subst.
+        split; auto. exists []; auto. }
+  apply (G _ (fw_acquire_default net cached) t r Hc Hin).
+Qed.
